@@ -10,6 +10,10 @@
 //        through mpt_c[u]int{8,16,32,64}/cchar/cuchar/cint/cuint/clong/culong (base 0,2..36, with and
 //        without range), mpt_cfloat/cdouble/cldouble (with and without range), mpt_convert_number and
 //        mpt_convert_string for all 13 type ids, each with and without destination.
+//    (c) text argument iterator (mpt_iterator_string): lists of generated numerals separated by blank runs; per
+//        element a sequence of mpt_value_convert requests (any id, with/without destination, string and
+//        character-vector views) and a closing mpt_iterator_consume; every result must be what
+//        mpt_convert_string gives for the remaining text in isolation.
 // O: return >= 0 (data) / > 0 (text)  =>  the destination holds exactly the reference value in the
 //    target type and no byte outside the target width changed; return < 0 (and 0 for text: nothing
 //    consumed) => destination untouched; verdict with dest == NULL equals the verdict with dest.
@@ -672,6 +676,178 @@ static void text_op(Ctx &c, uint8_t canary) {
   judge_text(c, tc, text, r1, r0, d);
 }
 
+// ------------------------------------------------------------------ text argument iterator (mpt_iterator_string)
+// The element value of this iterator is a convertable: every mpt_value_convert() on it and every
+// mpt_iterator_consume() parses the remaining text again. Oracle: a conversion of the current element
+// gives what mpt_convert_string() gives for the same remaining text in isolation (that function is
+// checked against the independent parsers by the text layer), whatever was asked of the element before
+// (other target types, queries without destination, string / character-vector views); after an element
+// was consumed as a whole word the next element starts behind the blank run.
+struct MetaVptrC {
+  int (*convert)(void *, uintptr_t, void *);
+  void (*unref)(void *);
+  uintptr_t (*addref)(void *);
+  void *(*clone)(const void *);
+};
+struct IterVptrC {
+  const value *(*get)(void *);
+  int (*advance)(void *);
+  int (*reset)(void *);
+};
+struct TextIter {
+  metatype *mt;
+  iterator *it;
+  char *heap;
+  TextIter() : mt(0), it(0), heap(0) {}
+  ~TextIter() { if (mt) (*reinterpret_cast<const MetaVptrC *const *>(mt))->unref(mt); free(heap); }
+  const value *get() { return (*reinterpret_cast<const IterVptrC *const *>(it))->get(it); }
+};
+
+static std::string gen_word(Ctx &c) {
+  std::string w;
+  switch (c.weighted({3, 3, 2})) {
+    case 0: w = gen_int_text(c, 0); break;
+    case 1: w = gen_flt_text(c); break;
+    default: { // plain short numbers: long element lists
+      static const char *plain[] = {"0", "1", "7", "42", "-3", "250.75", "1.5e3", "0x1f", "017", "1e2", "-0.5", ".25", "255", "256", "65536", "3e-2", "+8", "1e400", "99999999999"};
+      w = plain[c.pick(sizeof plain / sizeof *plain)];
+    }
+  }
+  std::string o;
+  for (char ch : w) if (!is_ws(ch) && ch) o += ch;
+  return o.empty() ? "0" : o;
+}
+static void gen_blanks(Ctx &c, std::string &s, size_t lo, size_t hi) {
+  static const char ws[] = "  \t\n";
+  for (size_t k = c.range(lo, hi); k; k--) s += ws[c.pick(4)];
+}
+
+// one conversion request to the current element; returns the consumed length of the isolated conversion
+static int iter_request(Ctx &c, TextIter &ti, const std::string &rest, const TI &t, bool consume, bool with_dest, uint8_t canary, bool *blank_out, int *ret_out) {
+  bool blank = true;
+  for (char ch : rest) blank = blank && is_ws(ch);
+  *blank_out = blank;
+  // isolated reference on a heap copy of the remaining text
+  char *copy = (char *)malloc(rest.size() + 1);
+  memcpy(copy, rest.c_str(), rest.size() + 1);
+  Dest di;
+  di.fill(canary);
+  int ri = mpt_convert_string(copy, (type_t)t.id, di.p());
+  free(copy);
+  Dest d;
+  d.fill(canary);
+  int r;
+  const char *what = consume ? "mpt_iterator_consume" : "mpt_value_convert";
+  if (consume) r = mpt_iterator_consume(ti.it, t.id, with_dest ? d.p() : 0);
+  else {
+    const value *v = ti.get();
+    if (!v) { *ret_out = MPT_ERROR(MissingData); c.logf("  value() is NULL"); return ri; }
+    r = mpt_value_convert(v, t.id, with_dest ? d.p() : 0);
+  }
+  *ret_out = r;
+  std::string q = quoted(rest);
+  c.logf("  %s(element, '%c', %s) on remaining text %s: ret %d; isolated mpt_convert_string: ret %d", what, t.id, with_dest ? "dest" : "no dest", q.c_str(), r, ri);
+  if (blank) {
+    // no characters that denote a number: refusal or "nothing there", but never a value
+    if (!d.untouched())
+      c.fail("iter:blank-element-value", "%s(element, '%c') on blank remaining text %s returns %d and changes the destination: %s", what, t.id, q.c_str(), r, hex(d.b, Dest::Size).c_str());
+    c.label("iter:blank-element");
+    return ri;
+  }
+  if ((r < 0) != (ri < 0))
+    c.fail("iter:verdict", "%s(element, '%c', %s) on remaining text %s returns %d, the same text converted in isolation returns %d", what, t.id, with_dest ? "dest" : "no dest", q.c_str(), r, ri);
+  if (r < 0) {
+    if (!d.untouched()) c.fail("iter:refused-dirty", "%s(element, '%c') on %s: refused (%d) but destination bytes changed: %s", what, t.id, q.c_str(), r, hex(d.b, Dest::Size).c_str());
+    c.label("iter:refused");
+    return ri;
+  }
+  if (!with_dest) {
+    if (!d.untouched()) c.fail("iter:canary", "%s(element, '%c', no dest) on %s changed the unrelated buffer", what, t.id, q.c_str());
+    c.label("iter:query");
+    return ri;
+  }
+  int cmpw = (t.flt && t.width == 16) ? 10 : t.width;
+  if (memcmp(d.b + Dest::Off, di.b + Dest::Off, cmpw)) {
+    std::string got = t.flt ? ldstr(d.getf(t)) : i128str(d.geti(t)), want = t.flt ? ldstr(di.getf(t)) : i128str(di.geti(t));
+    c.fail("iter:wrong-value", "%s(element, '%c') on remaining text %s delivers %s, the same text converted in isolation gives %s (consuming %d characters)", what, t.id, q.c_str(),
+           got.c_str(), want.c_str(), ri);
+  }
+  if (!d.outside_intact(t.width)) c.fail("iter:canary", "%s(element, '%c') on %s: bytes outside the %d byte target changed: %s", what, t.id, q.c_str(), t.width, hex(d.b, Dest::Size).c_str());
+  c.label("iter:converted");
+  return ri;
+}
+
+static void iterator_case(Ctx &c, uint8_t canary) {
+  std::string text;
+  size_t nwords = c.weighted({1, 3, 4, 4, 3, 2});
+  if (c.chance(64)) gen_blanks(c, text, 1, 2);
+  for (size_t k = 0; k < nwords; k++) {
+    if (k) gen_blanks(c, text, 1, 3);
+    text += gen_word(c);
+  }
+  if (c.chance(64)) gen_blanks(c, text, 1, 3);
+  TextIter ti;
+  ti.heap = (char *)malloc(text.size() + 1);
+  memcpy(ti.heap, text.c_str(), text.size() + 1);
+  c.logf("mpt_iterator_string(%s)", quoted(text).c_str());
+  ti.mt = mpt_iterator_string(ti.heap, 0);
+  VP_CHECK(c, ti.mt, "iter:create", "mpt_iterator_string returned NULL");
+  int rc = (*reinterpret_cast<const MetaVptrC *const *>(ti.mt))->convert(ti.mt, TypeIteratorPtr, &ti.it);
+  VP_CHECK(c, rc >= 0 && ti.it, "iter:create", "no iterator interface (%d)", rc);
+  c.label("iter:case");
+  size_t pos = 0;
+  for (size_t element = 0; element < 12; element++) {
+    std::string rest = text.substr(pos);
+    c.logf(" element %zu at offset %zu", element, pos);
+    int lasttype = -1;
+    bool reconverted = false, blank = false;
+    int r = 0;
+    for (size_t k = c.weighted({2, 3, 2, 1}); k; k--) {
+      switch (c.weighted({5, 4, 1, 1})) {
+        case 0: case 1: {
+          int tt = (int)c.pick(NT);
+          iter_request(c, ti, rest, kT[tt], false, c.flip(), canary, &blank, &r);
+          if (lasttype >= 0 && lasttype != tt) reconverted = true;
+          lasttype = tt;
+          break;
+        }
+        case 2: { // string view of the remaining text (drops the pending element end)
+          const value *v = ti.get();
+          const char *sv = 0;
+          int rs = v ? mpt_value_convert(v, 's', &sv) : -1;
+          c.logf("  mpt_value_convert(element, 's') = %d", rs);
+          c.label("iter:string-view");
+          break;
+        }
+        default: { // character vector view of the current word
+          const value *v = ti.get();
+          struct iovec vec = {0, 0};
+          int rs = v ? mpt_value_convert(v, MPT_type_toVector('c'), &vec) : -1;
+          c.logf("  mpt_value_convert(element, vector of char) = %d, %zu bytes", rs, vec.iov_len);
+          if (rs >= 0 && vec.iov_len > rest.size())
+            c.fail("iter:vector-length", "character vector view of the current word has %zu bytes, the remaining text %s has %zu", vec.iov_len, quoted(rest).c_str(), rest.size());
+          c.label("iter:vector-view");
+        }
+      }
+    }
+    int tt = c.flip() ? (int)c.pick(NT) : Tf + (int)c.pick(3);   // floating targets read most notations as a whole word
+    int len = iter_request(c, ti, rest, kT[tt], true, c.chance(192), canary, &blank, &r);
+    if (lasttype >= 0 && lasttype != tt) reconverted = true;
+    if (reconverted) { c.nontrivial(); c.label("iter:element-converted-to-several-types"); }
+    if (blank || rest.empty()) break;      // nothing left that denotes a number
+    if (r < 0) { if (!c.more()) break; continue; }   // refused: the element stays current
+    // extent of the word at the start of the remaining text
+    size_t b = 0;
+    while (b < rest.size() && is_ws(rest[b])) b++;
+    size_t e = b;
+    while (e < rest.size() && !is_ws(rest[e])) e++;
+    if ((size_t)len >= rest.size()) break;                                     // consumed up to the end of the text
+    if ((size_t)len != e) { c.label("iter:partial-word-consumed"); break; }    // element end inside a word: position of the next element is not specified
+    pos += e + 1;                                                              // one separating blank belongs to the consumed element
+    c.label("iter:advanced");
+  }
+}
+
 // ------------------------------------------------------------------ case
 static void data_op(Ctx &c, uint8_t canary) {
   int sti = (int)c.pick(NT), tti = (int)c.pick(NT);
@@ -701,6 +877,7 @@ static void run(Ctx &c) {
     return;
   }
   uint8_t canary = (sel & 1) ? 0xA5 : 0x5A;
+  if ((sel & 6) == 2) { iterator_case(c, canary); return; }   // selector 0 / 0xff keep the decoding of the committed corpus
   do {
     if (c.weighted({1, 1})) text_op(c, canary);
     else data_op(c, canary);
@@ -728,9 +905,12 @@ static Target t = {
     "inf, NaN, random; each through mpt_data_convert_*, mpt_value_convert and mpt_iterator_consume with and without destination; (b) numerals from a grammar "
     "(space, sign, 0x/0/0b prefix, leading zeros, magnitudes at 2^7..2^64 +-2, 2^k+-1, k*2^64+r, 1..40 random digits, fractions, exponents near every float limit, "
     "inf/nan, hex floats, trailing garbage) through the 14 mpt_c[u]int* wrappers (base 0/2..36, optional range), mpt_cfloat/cdouble/cldouble (optional range), "
-    "mpt_convert_number and mpt_convert_string for all 13 ids, with and without destination. exhaustive: all 256/65536 values of source types c,b,y,n,q x 13 targets "
+    "mpt_convert_number and mpt_convert_string for all 13 ids, with and without destination; (c) one case in four: text argument iterator mpt_iterator_string over 0..5 generated "
+    "numerals separated by generated blank runs (optional leading/trailing blanks), per element 0..3 requests (mpt_value_convert to any of the 13 ids with or without destination, string view, "
+    "character-vector view) followed by mpt_iterator_consume to a drawn id: every result must equal the isolated mpt_convert_string of the remaining text, a blank rest delivers no value, "
+    "and after a whole-word consume the next element starts behind the blank run. exhaustive: all 256/65536 values of source types c,b,y,n,q x 13 targets "
     "x 3 entry points x {dest, no dest}. non-trivial: a source value outside at least one target range (negative, > 127, non-integral or non-finite), or an accepted numeral "
-    "above 32 bits; distinct by hash of the draw sequence.",
+    "above 32 bits, or an iterator element that was converted to at least two different target types before it was consumed; distinct by hash of the draw sequence.",
     run,
     {160, 400},
     false,
